@@ -173,6 +173,16 @@ func (e *FailCodecErr) FromJSONRPCError(jsonrpc.JSONRPCError) error {
 	return errors.New("designed to fail")
 }
 
+// FailToErr is a codec-style error whose own conversion to the wire form fails: the handler's message and the
+// generic code must still reach the caller.
+type FailToErr struct{ Msg string }
+
+func (e *FailToErr) Error() string { return e.Msg }
+func (e *FailToErr) ToJSONRPCError() (jsonrpc.JSONRPCError, error) {
+	return jsonrpc.JSONRPCError{}, errors.New("cannot be converted")
+}
+func (e *FailToErr) FromJSONRPCError(jsonrpc.JSONRPCError) error { return nil }
+
 // registration tables ---------------------------------------------------------
 
 type errReg struct {
@@ -393,6 +403,8 @@ func (c c11Case) build() error {
 		return &FailMetaErr{c.Msg}
 	case "failcodec":
 		return &FailCodecErr{c.Msg}
+	case "failto":
+		return &FailToErr{c.Msg}
 	case "stdlib":
 		return errors.New(c.Msg)
 	case "wrapped":
@@ -685,7 +697,7 @@ func isNilInside(err error) bool {
 	return v.Kind() == reflect.Ptr && v.IsNil()
 }
 
-var c11Kinds = []string{"nil", "plain", "plainptr", "ptrplain", "meta", "metaval", "codec", "codecval", "both", "failmeta", "failcodec", "stdlib", "wrapped"}
+var c11Kinds = []string{"nil", "plain", "plainptr", "ptrplain", "meta", "metaval", "codec", "codecval", "both", "failmeta", "failcodec", "failto", "stdlib", "wrapped"}
 
 func genC11(t *rapid.T) c11Case {
 	msg, _ := genString(t, "msg")
@@ -734,7 +746,7 @@ func c11NT(c c11Case) (bool, []string) {
 	return nt, cl
 }
 
-const c11Rule = "error value kinds {nil, plain value, unregistered pointer to plain, pointer-plain, marshalable pointer, marshalable value-registered, codec, failing unmarshal, failing codec, stdlib, wrapped} with generated messages (valid UTF-8 incl. empty/escape-heavy) and fields x registration tables {same, client-only, server-only, disjoint codes, swapped types, none} x {error, (value,error)} x {ws, http, custom}; complete grid of kind x table x shape x transport plus rapid-generated content; 2-8 concurrent callers of one client function, each provoking its own error kind (or none) for 5-400 rounds; calls cancelled by their caller while running whose handler answers the cancellation with an error of each kind (ws). Non-trivial = a non-nil error with a registration table in play or a non-ASCII/empty message; distinct by descriptor hash"
+const c11Rule = "error value kinds {nil, plain value, unregistered pointer to plain, pointer-plain, marshalable pointer, marshalable value-registered, codec, failing unmarshal, failing codec, codec whose conversion to the wire form fails, stdlib, wrapped} with generated messages (valid UTF-8 incl. empty/escape-heavy) and fields x registration tables {same, client-only, server-only, disjoint codes, swapped types, none} x {error, (value,error)} x {ws, http, custom}; complete grid of kind x table x shape x transport plus rapid-generated content; 2-8 concurrent callers of one client function, each provoking its own error kind (or none) for 5-400 rounds; calls cancelled by their caller while running whose handler answers the cancellation with an error of each kind (ws). Non-trivial = a non-nil error with a registration table in play or a non-ASCII/empty message; distinct by descriptor hash"
 
 func TestC11(t *testing.T) {
 	rec := NewRec("C11", c11Rule)
